@@ -309,16 +309,20 @@ class Ctx:
                 if n > max_vars:
                     break
                 v = _frac_of(m.eval(z, model_completion=True))
-                r = Fraction(round(v * denom), denom)
-                if r == v:
-                    self.solver.add(z == _q(r))
+                r0 = Fraction(round(v * denom), denom)
+                if r0 == v:
+                    self.solver.add(z == _q(r0))
                     continue
-                self.solver.push()
-                self.solver.add(z == _q(r))
-                if self.check() == z3.sat:
-                    m = self.solver.model()
-                    # keep the pin (stay inside this push level)
-                else:
+                pinned = False
+                # nearest lattice point first, then its neighbours (a raw model often sits on a strict boundary), then a finer lattice
+                for r in (r0, r0 + Fraction(1, denom), r0 - Fraction(1, denom), r0 + Fraction(2, denom), r0 - Fraction(2, denom),
+                          Fraction(round(v * 4096), 4096), Fraction(round(v * 4096) + 1, 4096), Fraction(round(v * 4096) - 1, 4096)):
+                    self.solver.push()
+                    self.solver.add(z == _q(r))
+                    if self.check() == z3.sat:
+                        m = self.solver.model()
+                        pinned = True
+                        break            # keep the pin (stay inside this push level)
                     self.solver.pop()
             return m
         finally:
